@@ -259,7 +259,7 @@ CHECKS = {
     ),
     "C19": dict(
         title="Code generation is deterministic and location-independent",
-        legs=[leg("TestC19Determinism", module="idl", quick=(60, 4), thorough=(1500, 16), timeout_s=3000, prefixes=["c19."])],
+        legs=[leg("TestC19Determinism", module="idl", quick=(60, 4), thorough=(1000, 16), timeout_s=3400, prefixes=["c19."])],
         level="exploration",
         technique="property-based testing (rapid): metamorphic relation over repeated and relocated compilations of generated multi-file programs (identical file-set digests)",
         rule=("Valid programs sized up (up to 5 files, sub-directories, doubled declaration counts) x one of 28 target/option combinations (java generated_annotations=use excluded) x -delim: compiled 3 times in-process at one location, "
